@@ -1,12 +1,114 @@
-(* C03 -- Detection exactness (work in progress: the wiring theorem first). *)
+(* C03 -- Detection exactness: a frame is reported iff it is reply-shaped.
+
+   Statements only; proofs live in Proofs/.  [wirings] (Gen/Wiring.v) is regenerated from command/*.go on
+   every run, [code_valid] (Gen/ValidPacket.v) from pkg/scan/{tcp,icmp,arp}.  [reported w vpn r st f] =
+   the capture filter the command attaches for range r (libpcap's meaning of the filter expression, on the
+   link type of the packet source) accepts frame f AND ProcessPacketData of the command's scan method
+   emits a record, from decoder state st (= any history of earlier frames).  r ranges over ALL ranges,
+   in particular over the range of every chunk of <= 200 port ranges that startPortScanEngine scans
+   with its own engine and filter.  PARTIAL: libpcap's compiler and the kernel's BPF interpreter are
+   exercised by the correspondence check, not proved. *)
 From Coq Require Import ZArith List Bool String.
-From SX Require Import Base.Bytes Model.Decode Model.Process Model.Bpf Gen.Wiring Spec.C06 Spec.C03.
+From SX Require Import Base.Bytes Model.Decode Model.Process Model.Bpf Gen.ValidPacket Gen.Wiring Spec.C06 Spec.C03
+  Proofs.DecodeProofs Proofs.ProcessProofs Proofs.ValidPacketProofs Proofs.BpfProofs.
 Import ListNotations.
 Open Scope Z_scope.
 
 (* every packet-scan command composes the scan method, result filter, flag printer, capture filter,
-   engine and VPN flag that its scan needs (the table is regenerated from command/*.go) *)
+   engine and VPN flag that its scan needs: by computation over the translated table (for the SYN
+   scan: kernel filter tcp[13] == 18 together with the result filter accept exactly SYN+ACK among all
+   512 flag sets) *)
 Theorem C03_wiring_ok : forallb cmd_wiring_ok wirings = true /\ List.length wirings = 8%nat.
 Proof. vm_compute. split; reflexivity. Qed.
 
+Lemma wiring_in_ok w : In w wirings -> cmd_wiring_ok w = true.
+Proof. intros H. exact (proj1 (forallb_forall _ _) (proj1 C03_wiring_ok) w H). Qed.
+
+(* THE PROPERTY: for every command, link mode, range, decoder state and unfragmented well-formed frame,
+   the frame is reported iff it has the reply shape of that scan *)
+Theorem C03_iff : forall w c vpn r st f,
+  In w wirings -> class_of_cmd (w_cmd w) = Some c ->
+  wf_unfrag (source_raw w vpn) f = true ->
+  (reported w vpn r st f = true <-> reply_shape c (source_raw w vpn) r f = true).
+Proof.
+  intros w c vpn r st f Hin Hc Hwf.
+  rewrite (reported_iff w c vpn r st f (wiring_in_ok w Hin) Hc Hwf). reflexivity.
+Qed.
+
+(* every command of the table is one of the scans of the property *)
+Theorem C03_every_command_classified : forall w, In w wirings -> exists c, class_of_cmd (w_cmd w) = Some c.
+Proof.
+  intros w Hin. pose proof (wiring_in_ok w Hin) as H. unfold cmd_wiring_ok in H.
+  destruct (class_of_cmd (w_cmd w)) as [c|]; [exists c; reflexivity|discriminate].
+Qed.
+
+(* a reported frame yields a record that carries that frame's own source address, source port and
+   flag letters / ICMP type, code and TTL / sender IP and MAC *)
+Theorem C03_record_faithful : forall w vpn r st f,
+  reported w vpn r st f = true ->
+  snd (process (kind_of_method (w_method w)) (method_raw w vpn) (code_valid (kind_of_method (w_method w))) st f)
+  = ORecord (fields_of (kind_of_method (w_method w)) (method_raw w vpn) f).
+Proof.
+  intros w vpn r st f H. unfold reported in H. apply andb_true_iff in H. destruct H as [_ H].
+  set (k := kind_of_method (w_method w)) in *.
+  destruct (process k (method_raw w vpn) (code_valid k) st f) as [st' o] eqn:E. destruct o; try discriminate.
+  cbn [snd]. f_equal. exact (proj2 (process_record k (code_valid k) (code_valid_sound k) _ _ _ _ _ E)).
+Qed.
+
+(* each reply-shaped frame yields exactly one record (a call has one outcome), no other frame yields one *)
+Theorem C03_one_record : forall w c vpn r st f,
+  In w wirings -> class_of_cmd (w_cmd w) = Some c -> wf_unfrag (source_raw w vpn) f = true ->
+  reply_shape c (source_raw w vpn) r f = true ->
+  exists rec, snd (process (kind_of_method (w_method w)) (method_raw w vpn)
+                           (code_valid (kind_of_method (w_method w))) st f) = ORecord rec.
+Proof.
+  intros w c vpn r st f Hin Hc Hwf Hs. apply (C03_iff w c vpn r st f Hin Hc Hwf) in Hs.
+  eexists. exact (C03_record_faithful w vpn r st f Hs).
+Qed.
+
+(* the tcp.AllFlags printer of the sources prints the letters the model prints *)
+Theorem C03_flag_letters : forall fl,
+  flag_letters fl = flat_map (fun bc => if bit fl (fst bc) then [snd bc] else []) all_flags_table.
+Proof. intros fl. unfold flag_letters, all_flags_table. cbn [flat_map fst snd]. rewrite app_nil_r. reflexivity. Qed.
+
+(* ------------------------------------------------------------------ non-vacuity *)
+Definition ex_eth : bytes := [2; 0; 0; 0; 0; 1; 2; 0; 0; 0; 0; 2; 8; 0].
+Definition ex_ip : bytes := [69; 0; 0; 40; 0; 1; 64; 0; 64; 6; 0; 0; 10; 0; 0; 1; 192; 168; 0; 9].
+(* SYN+ACK (byte 13 = 18) and SYN+ACK+NS (byte 12 bit 0 set) from 10.0.0.1:80 *)
+Definition ex_synack : bytes := ex_eth ++ ex_ip ++ [0; 80; 156; 64; 0; 0; 0; 1; 0; 0; 0; 2; 80; 18; 250; 240; 0; 0; 0; 0].
+Definition ex_synack_ns : bytes := ex_eth ++ ex_ip ++ [0; 80; 156; 64; 0; 0; 0; 1; 0; 0; 0; 2; 81; 18; 250; 240; 0; 0; 0; 0].
+Definition ex_range : range := {| r_subnet := Some (167772160, 24); r_ports := [(22, 22); (80, 90)] |}.
+Definition syn_wiring : wiring := nth 1 wirings (nth 0 wirings (Build_wiring "" MArp FArpBPF false false)).
+
+Example C03_ex_reported :
+  w_cmd syn_wiring = "tcp syn"%string /\
+  wf_unfrag false ex_synack = true /\ reported syn_wiring false ex_range init_state ex_synack = true /\
+  wf_unfrag false ex_synack_ns = true /\ reported syn_wiring false ex_range init_state ex_synack_ns = false /\
+  reported syn_wiring false {| r_subnet := Some (167772160, 24); r_ports := [(22, 22)] |} init_state ex_synack = false /\
+  reported syn_wiring false {| r_subnet := Some (167772416, 24); r_ports := [] |} init_state ex_synack = false.
+Proof. vm_compute. repeat split; reflexivity. Qed.
+
+Example C03_ex_text :
+  synack_text ex_range = map (fun c => Z.of_nat (Ascii.nat_of_ascii c))
+    (list_ascii_of_string "tcp and ip src net 10.0.0.0/24 and (src portrange 22-22 or src portrange 80-90) and tcp[13] == 18").
+Proof. vm_compute. reflexivity. Qed.
+
+(* ------------------------------------------------------------------ the code as found violates C03 *)
+(* the SYN scan as found (result filter SYN && ACK): the kernel filter looks at byte 13 only and the
+   result filter does not look at NS, so SYN+ACK+NS is reported although the flags are not exactly
+   SYN+ACK *)
+Definition syn_wiring_orig : wiring :=
+  {| w_cmd := "tcp syn"; w_method := MTcp pf_syn_ack false; w_filter := FTcpSynAckBPF; w_chunked := true; w_vpn_source := true |}.
+
+Theorem C03_syn_ns_refuted_orig : exists r f,
+  cmd_wiring_ok syn_wiring_orig = false /\ wf_unfrag false f = true /\
+  reported syn_wiring_orig false r init_state f = true /\ reply_shape STcpSyn false r f = false.
+Proof. exists ex_range, ex_synack_ns. vm_compute. repeat split; reflexivity. Qed.
+
 Print Assumptions C03_wiring_ok.
+Print Assumptions C03_iff.
+Print Assumptions C03_every_command_classified.
+Print Assumptions C03_record_faithful.
+Print Assumptions C03_one_record.
+Print Assumptions C03_flag_letters.
+Print Assumptions C03_syn_ns_refuted_orig.
